@@ -762,6 +762,75 @@ async fn backpressure_case(seed: u64) -> BpOut {
 	out
 }
 
+// ---------------------------------------------------------------------------------------------------------------
+// HTTP/2 family: the same size gate when the request arrives as a stream of an HTTP/2 connection (hyper client and the
+// server's hyper connection over an in-memory duplex), with and without content-length, body in 1..4 DATA frames.
+
+async fn http2_case(seed: u64) -> BpOut {
+	use http_body_util::BodyExt;
+	let mut r = Rng::new(seed);
+	let mut out = BpOut { calls_answered: 0, violations: Vec::new(), nontrivial: false };
+	let req = *r.pick(&[64u32, 100, 1000, 4096]);
+	let resp = *r.pick(&[64u32, 100, 1000, 4096, 65536]);
+	let log = Log::default();
+	let srv = MemServer::new(server_cfg(req, resp), handlers::echo_module(log.clone()));
+	let (io, _jh) = srv.raw_conn();
+	let Ok((mut send, conn)) = hyper::client::conn::http2::handshake::<_, _, ReqBody>(hyper_util::rt::TokioExecutor::new(), hyper_util::rt::TokioIo::new(io)).await else { return out };
+	tokio::spawn(async move {
+		let _ = conn.await;
+	});
+	let l = req as usize;
+	for size in [l - 1, l, l + 1, l + 2 + r.usize(l), 2 * l] {
+		let shape = *r.pick(&[Shape::EchoStr, Shape::U64Ws, Shape::LeadWs]);
+		let Some(m) = build_msg(shape, size, r.next_u64()) else { continue };
+		let with_cl = r.bool();
+		let k = 1 + r.usize(4);
+		let mut cuts: Vec<usize> = (0..k - 1).map(|_| 1 + r.usize(size.max(2) - 1)).collect();
+		cuts.sort();
+		cuts.dedup();
+		let frames: Vec<Result<http_body::Frame<Bytes>, std::convert::Infallible>> =
+			chunks_of(m.text.as_bytes(), &cuts).into_iter().map(|c| Ok(http_body::Frame::data(Bytes::copy_from_slice(c)))).collect();
+		let n_frames = frames.len();
+		let body: ReqBody = http_body_util::StreamBody::new(futures_util::stream::iter(frames)).boxed_unsync();
+		let mut b = http::Request::builder().method("POST").uri("http://localhost/").header("content-type", "application/json");
+		if with_cl {
+			b = b.header("content-length", size);
+		}
+		let _ = log.take();
+		if send.ready().await.is_err() {
+			break;
+		}
+		let rep = match send.send_request(b.body(body).expect("request")).await {
+			Ok(rp) => rp,
+			Err(_) => continue,
+		};
+		let status = rep.status().as_u16();
+		let bytes = rep.into_body().collect().await.map(|b| b.to_bytes().to_vec()).unwrap_or_default();
+		let inv = log.take();
+		out.calls_answered += 1;
+		out.nontrivial = true;
+		let w = json!({"family": "http2", "seed": seed, "req_limit": req, "resp_limit": resp, "message_len": size, "content_length": with_cl, "data_frames": n_frames,
+			"status": status, "body": clip(&bytes), "invocations": inv_json(&inv)});
+		let ran = inv.iter().any(|i| i.method == m.method && i.params.as_deref() == Some(m.params.as_str()));
+		if size > l {
+			if ran || !inv.is_empty() {
+				out.violations.push(Violation::new("oversized-dispatched/tower-http2".to_string(), format!("req_limit={req} size={size} content-length={with_cl}: a message above the request limit reached a handler"), w.clone()));
+			}
+			if status == 200 {
+				out.violations.push(Violation::new("oversized-answered-200/tower-http2".to_string(), format!("req_limit={req} size={size}: status 200"), w.clone()));
+			}
+		} else {
+			if inv.len() != 1 || !ran {
+				out.violations.push(Violation::new("in-limit-refused/tower-http2".to_string(), format!("req_limit={req} size={size} content-length={with_cl} frames={n_frames}: handler invocations {}", inv.len()), w.clone()));
+			}
+			if status != 200 {
+				out.violations.push(Violation::new("in-limit-refused/tower-http2".to_string(), format!("req_limit={req} size={size}: status {status}"), w.clone()));
+			}
+		}
+	}
+	out
+}
+
 /// Everything one (req, resp) configuration needs in mode D.
 struct Env {
 	cfg: ServerConfig,
@@ -1344,6 +1413,7 @@ fn main() {
 	ev.assume("independence from max_response_body_size is checked through the absolute oracle evaluated under every response limit of the grid, not by a separate differential");
 	ev.assume("mode D: 'no further frame / no response' = idle for 10 virtual seconds on a paused clock");
 	ev.assume("back-pressure family (300 / 20000 cases): message buffer 1..2, transport buffer 2*limit+300..555 bytes, peer not reading, enough calls in flight to fill both, then one oversized frame, then 0..2 calls; after the peer reads again: exactly one -32007, no handler saw the oversized message, all other calls answered");
+	ev.assume("HTTP/2 family (400 / 20000 connections x 5 sizes around the limit): the request is a stream of an h2 connection, with / without content-length, body in 1..4 DATA frames; above the limit: no handler, no 200; within: the handler runs once, 200");
 	ev.assume("single-frame WebSocket text messages only (the statement's quantifier); fragmented messages are not sent");
 	ev.assume("understated Content-Length exists only on direct service calls; through an HTTP/1.1 connection the header is true or absent (chunked)");
 
@@ -1393,6 +1463,20 @@ fn main() {
 			ev.count("backpressure_calls_answered", o.calls_answered as u64);
 			if o.nontrivial {
 				ev.nontrivial(&("backpressure", i));
+			}
+			violations.extend(o.violations);
+		}
+	}
+	{
+		let n = ctx.tier.pick(400u64, 20_000);
+		let seed = ctx.seed;
+		let res = run_parallel((0..n).collect(), |_, i| block_on_virtual(http2_case(Rng::fork(seed ^ 0x42, i).next_u64())));
+		for (i, o) in res.into_iter().enumerate() {
+			ev.eval();
+			ev.count("http2_cases", 1);
+			ev.count("http2_requests", o.calls_answered as u64);
+			if o.nontrivial {
+				ev.nontrivial(&("http2", i));
 			}
 			violations.extend(o.violations);
 		}
